@@ -16,6 +16,8 @@ sed -i "s#path = \"/repo\"#path = \"$WT\"#" $E/sim/Cargo.toml
 printf '[net]\noffline = true\n\n[build]\ntarget-dir = "%s/target"\n' $E > $E/sim/.cargo/config.toml
 git -C $WT apply "$patch" || { echo "patch does not apply"; exit 3; }
 cd $E/sim && cargo build --release --offline >$E/build.log 2>&1 || { echo "BUILD FAILED"; tail -5 $E/build.log; git -C $WT checkout -q -- .; exit 3; }
+# the second build (snow as a user's release build), run by the main binary after its own run
+cargo build --profile plain --no-default-features --offline >>$E/build.log 2>&1 || echo "(second build failed to compile - skipped)"
 caught=""
 for id in C01 C02 C03 C04 C05 C06 C07 C08 C09 C10 C11 C12 C14 C15 C16 C17 C19 C20; do
     if [ "$id" = "$target" ]; then sc=1.0; else sc=$scale; fi
